@@ -365,6 +365,7 @@ class WriterK1(object):
                         if getattr(self, 'last_abstract', False):
                             a, kw, content = self._abstract_args(name)
                         state['kwargs'] = dict(kw)
+                        state['content'] = content
                         state['mark'] = len(I.events)
                         state['own'] = own
                         state['name'] = name
@@ -502,6 +503,13 @@ class WriterK1(object):
                 for k_, v_, _n in sinks.header_pairs(ev.data.get('data')):
                     if is_concrete(k_):
                         keys.add(str(concrete(k_)))
+        # was the call accepted with content that may be empty?
+        c_ = state.get('content')
+        if isinstance(c_, Unk) and name.startswith('write_'):
+            nonempty = 'truthy' in c_.facts or (c_.has_const and bool(c_.const))
+            rec_e = (name, 'non-empty' if nonempty else 'possibly-empty')
+            if rec_e not in result.setdefault('content_emptiness', []):
+                result['content_emptiness'].append(rec_e)
         # constraints under which a caller-supplied (non-None) option value was accepted on this path
         for pname, v in kwargs.items():
             if not isinstance(v, Unk) or (v.has_const and v.const is None):
@@ -606,7 +614,7 @@ _K = None
 def _run_one(seq):
     res = _K.run_sequence(seq)
     out = {'problems': res['problems'], 'sig': res.get('sig'), 'accepted': res.get('accepted', True)}
-    for k in ('raises', 'escapes', 'ops', 'pairs', 'next_id', 'prev_id', 'written_id', 'rendered', 'unrendered', 'arg_constraints'):
+    for k in ('raises', 'escapes', 'ops', 'pairs', 'next_id', 'prev_id', 'written_id', 'rendered', 'unrendered', 'arg_constraints', 'content_emptiness'):
         if k in res:
             out[k] = res[k]
     return out
